@@ -354,6 +354,13 @@ def _past_chain(mt, out):
     return "named_schemas" in txt or "is not None" in txt or "writer_schema" in txt
 
 
+def _string_key(sl):
+    """the subscript is a field name, not a position: a string constant or a lookup in a literal table of strings"""
+    if isinstance(sl, ast.Constant) and isinstance(sl.value, str):
+        return True
+    return isinstance(sl, ast.Subscript) and isinstance(sl.value, ast.Dict) and bool(sl.value.values) and all(isinstance(v, ast.Constant) and isinstance(v.value, str) for v in sl.value.values)
+
+
 def _from_reader_union(f, cand):
     """candidate expression is an element of a reader-side list: a loop variable over, or a non-literal subscript of, an r-side name"""
     rnames = {pn for pn in f.params if pn.startswith(("reader", "r_"))}
@@ -364,9 +371,9 @@ def _from_reader_union(f, cand):
             if isinstance(n, ast.Assign) and any(isinstance(t, ast.Name) and t.id == cand.id for t in n.targets):
                 v = n.value
                 for s in ast.walk(v):
-                    if isinstance(s, ast.Subscript) and names_in(s.value) & rnames and not (isinstance(s.slice, ast.Constant) and isinstance(s.slice.value, str)):
+                    if isinstance(s, ast.Subscript) and names_in(s.value) & rnames and not _string_key(s.slice):
                         return True
-    if isinstance(cand, ast.Subscript) and names_in(cand.value) & rnames and not (isinstance(cand.slice, ast.Constant) and isinstance(cand.slice.value, str)):
+    if isinstance(cand, ast.Subscript) and names_in(cand.value) & rnames and not _string_key(cand.slice):
         return True
     return False
 
